@@ -153,6 +153,23 @@ def rtInstruments (ii : Indexed) (defs : List Def) : Bool :=
       | none => false
     | none => false)
 
+/-- `resx <i> <exchange>`: the instrument found by name for definition `i`, its exchange reference
+read back by POSITION through the exchange table (needs no well-formedness at all:
+`Props.C11.exchange_resolves_by_name`). -/
+def resxLines (defs : List Def) (ii : Indexed) : List String :=
+  (defs.zipIdx).map (fun (d, i) =>
+    let r : Option Nat :=
+      match ii.findInstrumentIndex d.exchange d.nameInternal with
+      | some k =>
+        match ii.instruments[k]? with
+        | some x =>
+          match ii.exchanges[x.value.exchange.key]? with
+          | some ex => if ex.value = x.value.exchange.value then some ex.value else none
+          | none => none
+        | none => none
+      | none => none
+    line ["resx", n2s i, match r with | some e => n2s e | none => "none"])
+
 def buildLines (defs : List Def) (ii : Indexed) : List String :=
   ii.exchanges.map (fun x => line ["ex", n2s x.key, n2s x.value]) ++
   ii.assets.map (fun x => line (["as", n2s x.key, n2s x.value.exchange] ++ assetToks x.value.asset)) ++
@@ -170,21 +187,29 @@ def buildLines (defs : List Def) (ii : Indexed) : List String :=
       | some x => resolve ii x.value
       | none => none
     | none => none) "res" ++
+  resxLines defs ii ++
   [ line ["rt", fmtBool (rtExchanges ii defs), fmtBool (rtAssets ii defs),
       fmtBool (rtInstruments ii defs)] ]
+
+/-- the definition read back through the engine's three tables, positions only -/
+def engineRes (ii : Indexed) (d : Def) : Option Def :=
+  match ii.findInstrumentIndex d.exchange d.nameInternal with
+  | some k =>
+    match resolveEngine ii k with
+    | some (key, d') => if key = k then some d' else none
+    | none => none
+  | none => none
 
 def engineLines (defs : List Def) (ii : Indexed) : List String :=
   (instrumentStates ii).zipIdx.map (fun ((name, (key, i)), k) => line (["ins", n2s k, n2s name, n2s key] ++
     instToks (fun (e : Nat) => [n2s e]) (fun (a : Nat) => [n2s a]) i)) ++
   (assetStates ii).zipIdx.map (fun (((e, ni), a), k) => line (["ast", n2s k, n2s e, n2s ni] ++ assetToks a)) ++
   (connectivityStates ii).zipIdx.map (fun ((e, _), k) => line ["con", n2s k, n2s e]) ++
-  resLines defs (fun d =>
-    match ii.findInstrumentIndex d.exchange d.nameInternal with
-    | some k =>
-      match resolveEngine ii k with
-      | some (key, d') => if key = k then some d' else none
-      | none => none
-    | none => none) "eres"
+  resLines defs (engineRes ii) "eres" ++
+  -- `eresm`: the same read through the accessors the engine itself routes through
+  -- (`instrument_index_mut`, `asset_index_mut`, `connectivity_index(_mut)`): positional reads of the
+  -- same three tables, so the same function of the model (oracle review C11-M2)
+  resLines defs (engineRes ii) "eresm"
 
 def txresLines (defs : List Def) (find : Nat → Option Nat) (tab : List (Nat × Bool)) : List String :=
   (defs.zipIdx).map (fun (d, i) =>
@@ -245,7 +270,14 @@ def model : Drv (List Def) where
 def spec : Drv (List Def) where
   init := []
   step defs toks :=
+    -- the engine's name-keyed tables need names unique over the whole collection …
     let wf := decide (WFInstruments defs)
+    -- … the `IndexedInstruments` clauses only per exchange, and each key only its own hypothesis
+    -- (oracle review C11-M1; `Props.C11.resolve_by_name_weak`, `rt_exchanges`, `rt_assets`,
+    -- `rt_instruments_weak`, `exchange_resolves_by_name`)
+    let wfA := decide (WFAssets defs)
+    let wfN := decide (WFNamesPerExchange defs)
+    let bit := fun (b : Bool) => if b then "1" else "{0|1}"
     match toks with
     | "def" :: r =>
       match parseDef r with
@@ -261,7 +293,9 @@ def spec : Drv (List Def) where
           line ("kI" :: (List.range is.length).map n2s),
           line ("setE" :: (isort exchangeKey es).map n2s),
           line ("setA" :: (isort ExchangeAsset.sortKey as).map exchangeAssetTok) ] ++
-        (if wf then resLines defs some "res" ++ [line ["rt", "1", "1", "1"]] else []))
+        (if wfA && wfN then resLines defs some "res" else []) ++
+        (defs.zipIdx).map (fun (d, i) => line ["resx", n2s i, n2s d.exchange]) ++
+        [line ["rt", "1", bit wfA, bit wfN]])
     | "perm" :: p =>
       match nats? p with
       | some p =>
@@ -272,7 +306,7 @@ def spec : Drv (List Def) where
           else (defs, [])
         | none => (defs, ["bad-op"])
       | none => (defs, ["bad-op"])
-    | ["engine"] => (defs, if wf then resLines defs some "eres" else [])
+    | ["engine"] => (defs, if wf then resLines defs some "eres" ++ resLines defs some "eresm" else [])
     | "exec" :: es =>
       match nats? es with
       | some es =>
